@@ -394,7 +394,7 @@ def run(ctx):
                 loc = cfg.locate(sc)
                 pos_tests = ("%s > 0" % v, "%s >= 1" % v, "%s != 0" % v, v, "0 < %s" % v)
                 guarded = bool(loc) and all(cfg.dominated_by(l, lambda n, lab: n.kind == "test" and (
-                    (norm(n.ast) in pos_tests and lab is True) or (norm(n.ast) in ("%s == 0" % v, "not %s" % v, "%s < 1" % v) and lab is False))) for l in loc)
+                    (norm(n.ast) in pos_tests and lab is True) or (norm(n.ast) in ("%s == 0" % v, "not %s" % v, "%s < 1" % v, "%s <= 0" % v, "0 >= %s" % v, "1 > %s" % v, "0 == %s" % v) and lab is False))) for l in loc)
                 key = "index-minus-one::%s::%s" % (f.qual, norm(sc)[-40:])
                 if guarded:
                     r.ok("C04.13", key, "%s:%d" % (rel, sc.lineno), detail={"guarded": True})
